@@ -90,7 +90,9 @@ Meta(as, scale, first) ==
     [name |-> "cloud \"x\"", points |-> 1000 + as, first |-> first, step |-> 4, depth |-> 3,
      off |-> <<-32768, 65536, 98304>>, scale |-> <<scale, scale, scale>>, spacing |-> 81920,
      bmin |-> <<-65536, 0, 32768>>, bmax |-> <<65536, 131072, 163840>>, enc |-> "DEFAULT", attrs |-> AttrSet(as)]
-MetaFiles == {[fmt |-> "pmeta", style |-> st, meta |-> Meta(as, sc, 22 * as)] : as \in AttrSets, sc \in Scales, st \in Styles}
+\* (the scale is one number of the document: one scale per attribute list is enough)
+ScaleFor(as) == LET s == SetToSortSeq(Scales, LAMBDA a, b : a < b) IN s[(as % Len(s)) + 1]
+MetaFiles == {[fmt |-> "pmeta", style |-> st, meta |-> Meta(as, ScaleFor(as), 22 * as)] : as \in AttrSets, st \in Styles}
 
 \* hierarchies: prefix closed subsets of the universe, chunk roots, chunk order
 Universe ==
@@ -112,7 +114,7 @@ HierFile(S, px, ord) ==
     IN [f0 EXCEPT !.meta.first = ChunkSize(f0, <<>>)]
 HierFiles == {HierFile(S, px, ord) : S \in Trees, px \in {P \in SUBSET Universe : Cardinality(P) <= MaxPx}, ord \in {"fwd", "rev"}}
 \* (chunk roots outside S are ignored; rev differs from fwd only with two or more)
-HierFilesNorm == {f \in HierFiles : TRUE}
+HierFilesNorm == {f \in HierFiles : f.ord = "rev" => Len(Proxies(f)) >= 2}
 
 \* octree files
 OPoints(pr, i) ==
